@@ -39,6 +39,54 @@ theorem sym_laws : AeadLaws sym where
     subst h1; subst h2; subst h3; subst h4
     exact ⟨rfl, rfl, rfl⟩
 
+/-! ### what the GENERATED guards (GenGuards.lean, regenerated from community.py / crypto.py on every run) say, in the
+    form the proofs use.  Every lemma here is re-proved against the current code: if a guard loses a conjunct, gains a
+    disjunct or compares something else, its lemma (and every theorem resting on it) stops compiling. -/
+
+theorem gen_createRefused (a c r e : Bool) :
+    (Gen.createRefused true a c r e = true) ↔ (a = true ∨ c = true ∨ r = true ∨ e = true) := by
+  cases a <;> cases c <;> cases r <;> cases e <;> simp [Gen.createRefused]
+
+theorem gen_joinRefused (a b : Nat) : (Gen.joinRefused a b = true) ↔ maxJoined ≤ a + b := by
+  simp [Gen.joinRefused, maxJoined]
+
+theorem gen_relayRefused (p re b : Bool) :
+    (Gen.relayRefused p re b = true) ↔ (p = true ∨ (re = true ∧ b = true)) := by
+  cases p <;> cases re <;> cases b <;> simp [Gen.relayRefused]
+
+theorem gen_cellRefused (re ext p nc : Bool) :
+    (Gen.cellRefused re ext false p nc true = true) ↔ ((re = false ∧ ext = true) ∨ (p = true ∧ nc = false)) := by
+  cases re <;> cases ext <;> cases p <;> cases nc <;> simp [Gen.cellRefused]
+
+theorem gen_destroyViaRelay (p : Prop) [Decidable p] : (Gen.destroyViaRelay true (decide p) = true) ↔ p := by
+  simp [Gen.destroyViaRelay]
+
+theorem gen_destroyExit (p : Prop) [Decidable p] : (Gen.destroyExit true (decide p) = true) ↔ p := by
+  simp [Gen.destroyExit]
+
+theorem gen_destroyCircuit (p : Prop) [Decidable p] : (Gen.destroyCircuit true (decide p) = true) ↔ p := by
+  simp [Gen.destroyCircuit]
+
+theorem gen_dataOurs (a b : Bool) : Gen.dataOurs a true b = (a && b) := by
+  cases a <;> cases b <;> rfl
+
+theorem gen_exitDataRefuses (en ip : Bool) : (Gen.exitDataRefuses true en ip = true) ↔ (en = false ∧ ip = false) := by
+  cases en <;> cases ip <;> simp [Gen.exitDataRefuses]
+
+theorem gen_createdMatches (p q : Prop) [Decidable p] [Decidable q] :
+    (Gen.createdMatches (decide p) (decide q) = true) ↔ (p ∧ q) := by
+  simp [Gen.createdMatches]
+
+theorem gen_createdRefused (ep sh c r e : Bool) :
+    (Gen.createdRefused ep sh c r e = true) ↔ (ep = false ∨ sh = false ∨ c = true ∨ r = true ∨ e = true) := by
+  cases ep <;> cases sh <;> cases c <;> cases r <;> cases e <;> simp [Gen.createdRefused]
+
+/-- the conversion of an exit socket into a relay pair removes the socket with remove_now=True -/
+theorem gen_convertRemovesNow : Gen.convertRemovesNow = true := rfl
+
+/-- NO_CRYPTO_PACKETS is exactly {create, created}, and EXTEND is the message the relay_early rule names -/
+theorem gen_noCrypto : Gen.noCryptoIds = [Gen.msgIdCreate, Gen.msgIdCreated] ∧ Gen.msgIdExtend = 4 := by decide
+
 /-! ### dict lemmas -/
 theorem get_set_self {α : Type} (l : List (Nat × α)) (k : Nat) (v : α) : get (set l k v) k = some v := by
   induction l with
@@ -379,12 +427,12 @@ theorem exitData_qo (n : Node) (src cid dest tag : Nat) (hq : QueueOwn n) :
       | inr h => exact hq (cid, e) (mem_of_get _ _ _ he) q h
     dsimp only
     split
+    · exact hq
     · split
       · exact qo_set cid _ rfl hown hq
-      · exact hq
-    · split
-      · exact qo_set cid _ rfl hown hq
-      · exact hq
+      · split
+        · exact qo_set cid _ rfl hown hq
+        · exact hq
 
 theorem openStep_qo (n : Node) (cid : Nat) (hq : QueueOwn n) : QueueOwn (openStep (B := B) n cid).1 := by
   unfold openStep
@@ -418,11 +466,9 @@ theorem onCreate_qo (n : Node) (src cid ident pk dh : Nat) (hq : QueueOwn n) :
   · exact hq
   · split
     · exact hq
-    · split
-      · exact hq
-      · dsimp only
-        refine qo_set cid ⟨⟨pk, src, n.freshKey⟩, 0, []⟩ ?_ (by intro q hqm; simp at hqm) hq
-        rw [sendMsg_exits]
+    · dsimp only
+      refine qo_set cid ⟨⟨pk, src, n.freshKey⟩, 0, []⟩ ?_ (by intro q hqm; simp at hqm) hq
+      rw [sendMsg_exits]
 
 theorem oursCreated_exits (n : Node) (cid : Nat) (circ : Circ) (key authPk dhRef : Nat) (ch : Choice) :
     (oursCreated A n cid circ key authPk dhRef ch).1.exits = n.exits := by
@@ -443,9 +489,10 @@ theorem onCreated_qo (n : Node) (cid ident key authPk dhRef : Nat) (ch : Choice)
     · exact qo_same rfl hq
     · split
       · exact qo_same rfl hq
-      · split
-        · exact qo_same rfl hq
+      · dsimp only
+        split
         · exact qo_del _ (by dsimp only; rw [sendMsg_exits]) hq
+        · exact rmExit_qo _ _ (qo_same (sendMsg_exits A _ _ _ _) hq)
   · split
     · exact hq
     · split
@@ -496,9 +543,7 @@ theorem processCell_qo (n : Node) (src : Nat) (c : Cell B) (ch : Choice) (hq : Q
         dsimp only
         split
         · exact hq
-        · split
-          · exact hq
-          · cases m with
+        · cases m with
             | data dest org tag => exact onData_qo n src c.cid dest org tag hq
             | create ident pk dh => exact onCreate_qo A n src c.cid ident pk dh hq
             | created ident key authPk dhRef => exact onCreated_qo A n c.cid ident key authPk dhRef ch hq
